@@ -65,6 +65,8 @@ def eq_val(a, b, exact, tol=1e-10):
 
 
 def run(res, replay=None):
+    # structural tie of the epoch machinery of phasegen/demography.py (generator, get_epochs, discrete _broadcast / _apply): translate the CURRENT source and re-check proofs/GenDemographyEquiv.v
+    import translate_step; (res.proof is not None) and translate_step.run(res.proof, pid=res.pid, tie='demography')
     # structural tie of the propagation loops (_accumulate, cdf) of phasegen/distributions.py: translate the CURRENT source and re-check proofs/GenLoopsEquiv.v
     import translate_step; (res.proof is not None) and translate_step.run(res.proof, pid=res.pid, tie='loops')
     rng = random.Random(res.seed)
